@@ -523,6 +523,89 @@ theorem userSims_other (vectors : List (List Q)) (ratings : List Q) (uidx : Opti
     have : u ≠ v := by intro h; exact hv (by rw [h])
     simp [userSims, setAt, mv, List.getElem?_set_ne this]
 
+/-! ### the score of one target item in the item-item scorer -/
+
+/-- the rated items as neighbours of the target: position, similarity to the target (0 when not a stored neighbour), rating -/
+def denseNbrs (ri_vals col : List Q) : List Nbr := (enum col).map (fun e => ⟨e.1, e.2, ri_vals.getD e.1 0⟩)
+
+theorem denseNbrs_length (r col : List Q) : (denseNbrs r col).length = col.length := by simp [denseNbrs, enum]
+
+theorem denseNbrs_getElem (r col : List Q) (i : Nat) (hi : i < (denseNbrs r col).length) :
+    (denseNbrs r col)[i] = ⟨i, col[i]'(by simpa [denseNbrs_length] using hi), r.getD i 0⟩ := by
+  simp [denseNbrs, enum]
+
+theorem denseNbrs_getD (r col : List Q) (j : Nat) :
+    ((denseNbrs r col).getD j ⟨0, 0, 0⟩).sim = col.getD j 0 ∧ (j < col.length → ((denseNbrs r col).getD j ⟨0, 0, 0⟩).r = r.getD j 0) := by
+  by_cases hj : j < col.length
+  · have hj' : j < (denseNbrs r col).length := by simpa [denseNbrs_length] using hj
+    simp [List.getD_eq_getElem?_getD, List.getElem?_eq_getElem hj', denseNbrs_getElem, List.getElem?_eq_getElem hj]
+  · have hj' : ¬ j < (denseNbrs r col).length := by simpa [denseNbrs_length] using hj
+    simp [List.getD_eq_getElem?_getD, List.getElem?_eq_none (Nat.le_of_not_lt hj'), List.getElem?_eq_none (Nat.le_of_not_lt hj), hj]
+
+theorem sims_denseNbrs (r col : List Q) : (denseNbrs r col).map (·.sim) = col := by
+  apply List.ext_getElem (by simp [denseNbrs_length])
+  intro i h1 h2
+  simp [denseNbrs_getElem]
+
+theorem prods_denseNbrs (r col : List Q) (h : r.length = col.length) :
+    (denseNbrs r col).map (fun n => n.sim * n.r) = List.zipWith (· * ·) r col := by
+  apply List.ext_getElem (by simp [denseNbrs_length, h])
+  intro i h1 h2
+  have hi : i < col.length := by simpa [denseNbrs_length] using h1
+  have hr : i < r.length := by omega
+  simp [denseNbrs_getElem, List.getD_eq_getElem?_getD, List.getElem?_eq_getElem hr, mul_comm]
+
+/-- the model's aggregate in terms of the two sums the code divides -/
+theorem aggregate_eq_divQ (explicit : Bool) (ns : List Nbr) :
+    aggregate explicit ns = if explicit then divQ (sumQ (ns.map (fun n => n.sim * n.r))) (sumQ (ns.map (·.sim))) else some (sumQ (ns.map (·.sim))) := by
+  cases explicit <;> simp [aggregate, divQ]
+
+/-- the positions `topk` returns, read as neighbours, are the `k` most similar of the rated items -/
+theorem topk_nbrs (r col : List Q) (k : Nat) :
+    (topkIdx col k).map (fun j => (denseNbrs r col).getD j ⟨0, 0, 0⟩) = (sortBy leDesc (denseNbrs r col)).take k := by
+  have := gather_sorted (fun (x y : Q) => decide (y ≤ x)) leDesc col (denseNbrs r col) ⟨0, 0, 0⟩ (by simp [denseNbrs_length])
+    (by intro a b ha hb; simp [leDesc, denseNbrs_getElem])
+  rw [← this, topkIdx, List.map_map, List.map_take]
+  rfl
+
+/-- **the fast path is the model's aggregate over the whole neighbourhood** -/
+theorem itemScoreT_fast (explicit : Bool) (minN maxN : Nat) (r col : List Q) (size : Nat) (hr : r.length = col.length)
+    (h1 : minN ≤ size) (h2 : size ≤ maxN) :
+    itemScoreT explicit minN maxN r col size = aggregate explicit (denseNbrs r col) := by
+  rw [aggregate_eq_divQ, sims_denseNbrs, prods_denseNbrs r col hr]
+  simp [itemScoreT, h1, h2, dot]
+
+/-- **the slow path is the model's aggregate over the `max_nbrs` most similar** — numerator and denominator range over the same
+    truncated neighbourhood -/
+theorem itemScoreT_slow (explicit : Bool) (minN maxN : Nat) (r col : List Q) (size : Nat) (hr : r.length = col.length)
+    (h2 : maxN < size) :
+    itemScoreT explicit minN maxN r col size = aggregate explicit ((sortBy leDesc (denseNbrs r col)).take maxN) := by
+  have hnf : ¬ size ≤ maxN := by omega
+  rw [aggregate_eq_divQ, ← topk_nbrs r col maxN]
+  have hin : ∀ j ∈ topkIdx col maxN, j < col.length := by
+    intro j hj
+    simp only [topkIdx, List.mem_map] at hj
+    obtain ⟨e, he, rfl⟩ := hj
+    have := mem_enum col e ((sortBy_perm _ _).subset (List.mem_of_mem_take he))
+    exact (List.getElem?_eq_some_iff.mp this).1
+  have hs : takeIdx col 0 (topkIdx col maxN) = ((topkIdx col maxN).map (fun j => (denseNbrs r col).getD j ⟨0, 0, 0⟩)).map (·.sim) := by
+    simp only [takeIdx, List.map_map]
+    apply List.map_congr_left; intro j _
+    simp only [Function.comp_apply]; exact ((denseNbrs_getD r col j).1).symm
+  have hp : List.zipWith (· * ·) (takeIdx col 0 (topkIdx col maxN)) (takeIdx r 0 (topkIdx col maxN))
+      = ((topkIdx col maxN).map (fun j => (denseNbrs r col).getD j ⟨0, 0, 0⟩)).map (fun n => n.sim * n.r) := by
+    simp only [takeIdx, List.map_map, List.zipWith_map, List.zipWith_self]
+    apply List.map_congr_left; intro j hj
+    simp only [Function.comp_apply]; rw [(denseNbrs_getD r col j).1, (denseNbrs_getD r col j).2 (hin j hj)]
+  simp only [itemScoreT, hnf, decide_false, Bool.and_false, Bool.false_eq_true, if_false, Bool.not_false, if_true]
+  rw [hp, hs]
+
+/-- a neighbourhood with fewer than `min_nbrs` stored entries (that fits within `max_nbrs`) gets no score -/
+theorem itemScoreT_too_few (explicit : Bool) (minN maxN : Nat) (r col : List Q) (size : Nat) (h1 : size < minN) (h2 : size ≤ maxN) :
+    itemScoreT explicit minN maxN r col size = none := by
+  have : ¬ minN ≤ size := by omega
+  simp [itemScoreT, this, h2]
+
 #print axioms simRowT_eq
 #print axioms simBlocksT_eq
 #print axioms simBlocksT_row
